@@ -44,9 +44,13 @@ def plan_dp(tier, seed, props):
     # behaviours of the DocEdit machine: long arrays, deep nesting, several independent edits
     for depth, n in ((3, 400 if q else 6000), (5, 300 if q else 6000)):
         items += [dict(family=L.ensure_edits(seed, n, depth), opts=NONE, frac=1.0, void=False, nf=False, mode="paired")]
+    # every kind of value; sibling containers with same-named array children
+    items += [item("kinds", NONE, 0.06 if q else 0.5), item("siblings", NONE, 0.3 if q else 1.0)]
     if listonly:
         return items
     others = [SET, MSET, MERGE, SETMERGE, MSETMERGE]
+    for o in others:
+        items += [item("kinds", o, 0.015 if q else 0.15), item("siblings", o, 0.05 if q else 0.5)]
     for o in others:
         f = 0.04 if q else 0.25
         items += [item("scalarr_4_3", o, f), item("nestarr_2", o, f), item("obj_2", o, f * 1.5),
@@ -77,7 +81,8 @@ def plan_pt(tier, seed, props):
         items += [item("scalarr_4_3", NONE, 0.08 if q else 0.6, False, max=8 if q else 14),
                   item("nestarr_2", NONE, 0.08 if q else 0.6, False, max=8 if q else 14),
                   item("deep", NONE, 0.06 if q else 0.6, False, max=8 if q else 14),
-                  item("obj_2", NONE, 0.1 if q else 0.6, False, max=6 if q else 10)]
+                  item("obj_2", NONE, 0.1 if q else 0.6, False, max=6 if q else 10),
+                  item("kinds", NONE, 0.02 if q else 0.2, False, max=6 if q else 10), item("siblings", NONE, 0.1 if q else 0.6, False, max=8)]
         if not q:
             items += [item("scalarr_5_3", NONE, 0.05, False, max=10), item("keyed_2", NONE, 0.5, False, max=10)]
     if "C08" in props:
@@ -85,7 +90,8 @@ def plan_pt(tier, seed, props):
             items += [item("scalarr_4_3", o, 0.05 if q else 0.4, False, max=10, mode="whole"),
                       item("nestarr_2", o, 0.05 if q else 0.4, False, max=10, mode="whole"),
                       item("keyed_2", o, 0.4 if q else 1.0, False, max=10, mode="whole"),
-                      item("deep", o, 0.03 if q else 0.3, False, max=10, mode="whole")]
+                      item("deep", o, 0.03 if q else 0.3, False, max=10, mode="whole"),
+                      item("kinds", o, 0.02 if q else 0.2, False, max=10, mode="whole")]
         items += [item("keyednull", KEYS, 1.0, False, max=14, mode="whole"),
                   item("keyed_2", KEYS, 1.0, False, max=12, mode="whole"),
                   item("keyeddeep", KEYS, 1.0, False, max=12, mode="whole"),
@@ -105,7 +111,7 @@ def plan_eq(tier, seed, props):
                   item("nestarr_2", o, 0.15 if q else 1.0, False),
                   item("obj_2", o, 0.3 if q else 1.0, False),
                   item("keyed_2", o, 0.5 if q else 1.0, False),
-                  item("deep", o, 0.05 if q else 0.5, False)]
+                  item("deep", o, 0.05 if q else 0.5, False), item("kinds", o, 0.1 if q else 1.0, True)]
         if not q:
             items += [item("scalarr_5_3", o, 0.3, False), item("keyed_3", o, 0.5, False), item("obj_3", o, 0.2, False),
                       item("nestarr_3", o, 0.03, False)]
@@ -120,7 +126,8 @@ def plan_tx(tier, seed, props):
         items += [item("scalarr_4_3", o, f), item("nestarr_2", o, f), item("obj_2", o, f), item("deep", o, f / 2)]
     for o in (KEYS, O(keys=["id"], merge=True)):
         items += [item("keyed_2", o, 0.5 if q else 1.0), item("keyeddeep", o, 1.0)]
-    items += [item("strdocs", NONE, 0.5 if q else 1.0)]
+    items += [item("strdocs", NONE, 0.5 if q else 1.0), item("kinds", NONE, 0.04 if q else 0.4), item("siblings", NONE, 0.15 if q else 1.0),
+              item("kinds", MERGE, 0.02 if q else 0.2), item("kinds", SET, 0.02 if q else 0.2)]
     items += [dict(family="hunks_wf", opts=NONE, frac=1.0, void=False, mode="built", max=4000 if q else 30000, nf=False)]
     return items
 
@@ -146,6 +153,8 @@ def plan_jp(tier, seed, props):
              item("objptr", NONE, 0.015 if q else 0.15, False, max=3),
              item("ptrdeep", NONE, 0.1 if q else 0.8, False, max=4),
              item("keyed_2", NONE, 0.3 if q else 1.0, False, max=3),
+             item("siblings", NONE, 0.4 if q else 1.0, False, max=3), item("kinds", NONE, 0.05 if q else 0.5, False, max=3),
+             item("intkeys", NONE, 0.5 if q else 1.0, False, max=3),
              # set-mode diffs: paths that must be refused
              item("scalarr_4_3", SET, 0.01 if q else 0.05, False, max=1), item("keyed_2", KEYS, 0.1 if q else 0.5, False, max=1),
              item("nestarr_2", MSET, 0.01 if q else 0.05, False, max=1)]
@@ -159,7 +168,8 @@ def plan_mg(tier, seed, props):
         f = 1.0 if o is MERGE else 0.5
         items += [item("obj_2", o, (0.4 if q else 1.0) * f, False), item("deep", o, (0.15 if q else 1.0) * f, False),
                   item("nestarr_2", o, (0.1 if q else 0.6) * f, False), item("keyed_2", o, (0.4 if q else 1.0) * f, False),
-                  item("deepobj", o, (0.3 if q else 1.0) * f, False), item("scalarr_4_3", o, (0.05 if q else 0.3) * f, False)]
+                  item("deepobj", o, (0.3 if q else 1.0) * f, False), item("scalarr_4_3", o, (0.05 if q else 0.3) * f, False),
+                  item("kinds", o, (0.1 if q else 1.0) * f, False), item("siblings", o, (0.2 if q else 1.0) * f, False)]
         if not q:
             items += [item("obj_3", o, 0.2 * f, False)]
     return items
@@ -182,7 +192,14 @@ def plan_api(tier, seed, props):
             dict(family="mergenull", opts=MERGE, frac=1.0, void=False, nf=False, max=n * 6),
             dict(family="mergedocs", opts=MERGE, frac=1.0, void=False, nf=False, max=n * 3), dict(family="obj_2", opts=MERGE, frac=1.0, void=False, nf=False, max=n),
             item("obj_2", NONE, max=n), item("scalarr_4_3", SET, max=n), item("nestarr_2", MSET, max=n), item("keyed_2", KEYS, max=n),
-            item("obj_2", SETMERGE, max=n), item("deep", NONE, max=n), item("mergedeep", MERGE, max=n)]
+            item("obj_2", SETMERGE, max=n), item("deep", NONE, max=n), item("mergedeep", MERGE, max=n),
+            item("kinds", NONE, max=n * 2), item("siblings", NONE, max=n)]
+
+
+def plan_api_ptr(tier, seed, props):
+    """under the pointer table: keys that are different spellings of one integer, keys that need escaping"""
+    n = 3 if tier == "quick" else 10
+    return [item("intkeys", NONE, max=n * 4), item("intkeys", MERGE, max=n * 2), item("objptr", NONE, max=n * 2), item("ptrdeep", NONE, max=n)]
 
 
 def plan_ya(tier, seed, props):
@@ -202,12 +219,13 @@ def plan_v1(tier, seed, props):
     c18 = "C18" in props
     items += [item("scalarr_4_3", NONE, 0.12 if q else 0.6), item("nestarr_2", NONE, 0.12 if q else 0.6), item("obj_2", NONE, 0.15 if q else 1.0),
               item("deep", NONE, 0.06 if q else 0.6), item("deepobj", NONE, 0.4 if q else 1.0), item("deeparr", NONE, 0.15 if q else 1.0),
-              item("keyed_2", NONE, 0.3 if q else 1.0), item("objptr", NONE, 0.01 if q else 0.1), item("ptrdeep", NONE, 0.06 if q else 0.6)]
+              item("keyed_2", NONE, 0.3 if q else 1.0), item("objptr", NONE, 0.01 if q else 0.1), item("ptrdeep", NONE, 0.06 if q else 0.6),
+              item("kinds", NONE, 0.05 if q else 0.5), item("siblings", NONE, 0.3 if q else 1.0)]
     for o in ((MERGE,) if c18 else (SET, MSET, MERGE, KEYS, O(eps=8))):
         f = 0.05 if q else 0.3
         vd = not (c18 and o.get("merge"))      # RFC 7386 has no notion of the empty (void) document
         items += [item("obj_2", o, f * 2, vd), item("deep", o, f / 2, vd), item("deepobj", o, f * 3, vd), item("nestarr_2", o, f, vd),
-                  item("mergedeep", o, f * 2, vd)]
+                  item("mergedeep", o, f * 2, vd), item("kinds", o, f / 2, vd)]
         if not c18:
             items += [item("scalarr_4_3", o, f), item("keyed_2", o, f * 4)]
     if not c18:
@@ -255,11 +273,11 @@ CHUNKS = {("C01", "dp"): 8, ("C05", "dp"): 8, ("C06", "dp"): 4, ("C07", "dp"): 8
 
 THOROUGH_EXTRA = {p: ["MCPatch-list", "MCPatch-list4", "MCPatch-nest", "MCPatch-obj", "MCPatch-keyed"] for p in ("C01", "C03", "C05", "C06", "C07", "C08")}
 
-def content(driver, module, planfn, scale=0.12, **kw):
+def content(driver, module, planfn, scale=0.09, **kw):
     """content stages: the property's own plan, sampled, under tables/content1.json (empty / escaped / multi-byte / control
     strings and keys, negative and fractional numbers) and tables/content2.json (300-character strings, 200-character keys,
     keys that look like indices, 1e21, 2^53-range integers, the smallest and the largest float)"""
-    return [Stage(driver, module, planfn, table="content1", scale=scale, **kw), Stage(driver, module, planfn, table="content2", scale=scale, **kw)]
+    return [Stage(driver, module, planfn, table=t, scale=scale, **kw) for t in ("content1", "content2", "content3")]
 
 
 CHECKS = {
@@ -285,7 +303,8 @@ CHECKS = {
                 rule="session = one input: a line sequence over 46 line kinds (all of length <= 2, sampled/all of length 3, seeded longer ones), "
                      "a structurally valid hunk with arbitrary path built from fields and through text, an op sequence, or a seeded byte "
                      "mutation of a valid text; every accepted diff is applied to documents of every kind"),
-    "C15": dict(stages=[Stage("api", "TraceApi", plan_api, extra={"histories": "HIST"})], design=["MCApi"],
+    "C15": dict(stages=[Stage("api", "TraceApi", plan_api, extra={"histories": "HIST"}),
+                        Stage("api", "TraceApi", plan_api_ptr, table="pointer", extra={"histories": "HIST"})], design=["MCApi"],
                 rule="session = one history of read-only calls (every sequence over 10 calls up to the tier's length, from Api.tla) on shared "
                      "live values of one seed (a, b, options), repeated in-process and compared with a reference process; non-trivial = history length >= 2"),
     "C14": dict(stages=[Stage("proc", "TraceCli", lambda t, s, p: [], bins=True, extra={"frac": "FRAC"}),
@@ -381,6 +400,7 @@ def run_check(prop, tier, seed, keep=False, only=None):
         samples, stage_info = [], []
         traces = {}
         work = []
+        fatal = 0
         for i, st in enumerate(cfg["stages"]):
             if st.bins and bins is None:
                 bins = L.build_binaries(sc)
@@ -403,7 +423,17 @@ def run_check(prop, tier, seed, keep=False, only=None):
             if only is not None and tag == only[0]:
                 plan = dict(plan)
                 plan["extra"] = dict(plan.get("extra") or {}, only=only[1])
-            tr = L.run_driver(sc, jdv, plan, tag)
+            try:
+                tr = L.run_driver(sc, jdv, plan, tag)
+            except L.FatalInJd as e:
+                # the real code killed the process (a fatal error cannot be recovered into a trace record): the operations of
+                # the property did not succeed; the replay re-runs the stage
+                tail = e.output[-6000:]
+                path = L.write_replay(prop, "fatal-error", [], dict(stage=tag, seed=seed, tier=tier, driver=e.driver, output=tail))
+                print("VIOLATION property=%s replay=%s clause=fatal-error (the process died inside jd while driving stage %s: %s)"
+                      % (prop, path, tag, next((ln for ln in e.output.splitlines() if ln.startswith("fatal error:")), "fatal error")))
+                fatal += 1
+                continue
             if only is not None and tag != only[0]:
                 # not the stage being replayed: only its follow-up stages are needed
                 if st is not None and st.followup:
@@ -445,7 +475,7 @@ def run_check(prop, tier, seed, keep=False, only=None):
             print("KNOWN-FINDING: property=%s %s (%d sessions in this run; e.g. session %d)"
                   % (prop, known[kid]["what"], len(hits), hits[0][0]))
         # violations: one replay per failing session, at most 12 per clause; every clause is printed
-        nviol = len(fails)
+        nviol = len(fails) + fatal
         per_clause = {}
         for (sess, p, clause, tag) in sorted(fails):
             per_clause.setdefault(clause, []).append((sess, tag))
@@ -489,6 +519,8 @@ def known_constants():
 def replay(prop, path, keep):
     """re-runs the recorded failing session: same tier, seed and stage, the driver restricted to that session"""
     r = json.load(open(path))
+    if r.get("clause") == "fatal-error":
+        return run_check(prop, r.get("tier", "quick"), int(r.get("seed", 1)), keep)
     sess = r["records"][0]["sess"]
     return run_check(prop, r.get("tier", "quick"), int(r.get("seed", 1)), keep, only=(r["stage"], sess))
 
